@@ -13,6 +13,7 @@ from fractions import Fraction
 
 from . import sym, uflsem
 from .lift import Interp, LiftRaise, Obj, Unsupported
+from .model import AnalysisError
 from .sym import Ex
 from .uflsem import Idx, SemError, T, as_T
 
@@ -517,6 +518,22 @@ def nodes_of(e):
             out.append(t)
             stack.extend(reversed(t.attrs["ufl_operands"]))
     return out
+
+
+def make_pullback(prog, clsname, *args, ip=None):
+    """an instance of ufl.pullback.<clsname> whose state is whatever the class's own __init__ (interpreted from
+    source) sets up from the given arguments - the rules never name its private attributes"""
+    from .lift import Interp, Obj
+    from .model import FuncInfo
+
+    cls = prog.get_class("ufl.pullback." + clsname)
+    o = Obj("pullback:" + clsname, __class__=cls)
+    init = prog.lookup(cls, "__init__")
+    if isinstance(init, FuncInfo):
+        (ip or Interp(prog)).call_function(init, list(args), {}, self_obj=o)
+    elif args:
+        raise AnalysisError(f"{clsname}{args!r}: the class takes no constructor arguments")
+    return o
 
 
 def install_type_queries(ip):
